@@ -304,7 +304,87 @@ func c15Organism(g *GenomeSpec, fit float64, generation int) (fails []c15Fail) {
 	} else if back.Genotype.Id != g.ID {
 		fails = append(fails, c15Fail{"organism/genome-id", fmt.Sprintf("genome id %d read back as %d", g.ID, back.Genotype.Id)})
 	}
+	if len(fails) > 0 || len(gen.Genes) == 0 {
+		return
+	}
+	// the same organism written again after its genotype changed (in place, and by replacement): the
+	// second binary form restores the genome it has NOW
+	gen.Genes[0].Link.ConnectionWeight += 0.5
+	gen.Genes[0].IsEnabled = !gen.Genes[0].IsEnabled
+	o.Fitness = fit + 1
+	for step, want := range []*GenomeSpec{SpecOf(gen), cloneSpec(xorSeed())} {
+		if step == 1 {
+			o.Genotype = want.Build()
+		}
+		data2, err := o.MarshalBinary()
+		if err != nil {
+			return []c15Fail{{"organism/marshal-error", "second MarshalBinary: " + err.Error()}}
+		}
+		var back2 genetics.Organism
+		if err := back2.UnmarshalBinary(data2); err != nil {
+			return []c15Fail{{"organism/unmarshal-error", "UnmarshalBinary of the second binary form failed: " + err.Error()}}
+		}
+		if back2.Genotype == nil || normKey(SpecOf(back2.Genotype)) != normKey(want) || !sameF(back2.Fitness, fit+1) {
+			d := "nil genotype"
+			if back2.Genotype != nil {
+				d = diffKeys(normKey(want), normKey(SpecOf(back2.Genotype)))
+			}
+			return []c15Fail{{"organism/second-marshal", fmt.Sprintf("an organism marshalled again after its genotype changed (%s) restores fitness %g and a genome that differs from the current one: %s", []string{"in place", "replaced"}[step], back2.Fitness, d)}}
+		}
+	}
 	return
+}
+
+// c15ModelOrders: fast-solver models whose connection list is in every order (the order decides the
+// order of summation, i.e. the last bit of the outputs): three weighted links into a linear output.
+func c15ModelOrders() (fails []c15Fail) {
+	lin := neatmath.LinearActivation
+	acts := []neatmath.NodeActivationType{lin, lin, lin, lin} // 3 inputs, 1 output
+	w := []float64{0.1, 0.2, 0.3}
+	perms := [][]int{{0, 1, 2}, {0, 2, 1}, {1, 0, 2}, {1, 2, 0}, {2, 0, 1}, {2, 1, 0}}
+	inputs := [][]float64{{1, 1, 1}, {0.1, 0.7, 0.3}, {1e16, 1, -1e16}, {3, -1.1, 0.7}}
+	for _, perm := range perms {
+		var conns []*network.FastNetworkLink
+		for _, k := range perm {
+			conns = append(conns, &network.FastNetworkLink{SourceIndex: k, TargetIndex: 3, Weight: w[k]})
+		}
+		orig := network.NewFastModularNetworkSolver(0, 3, 1, 4, acts, conns, make([]float64, 4), nil)
+		var buf bytes.Buffer
+		if err := orig.WriteModel(&buf); err != nil {
+			return []c15Fail{{"model/write-error", err.Error()}}
+		}
+		back, err := network.ReadFMNSModel(bytes.NewReader(buf.Bytes()))
+		if err != nil {
+			return []c15Fail{{"model/read-error", err.Error()}}
+		}
+		for mode := 0; mode < 3; mode++ {
+			for _, in := range inputs {
+				run := func(s network.Solver) string {
+					_, _ = s.Flush()
+					if err := s.LoadSensors(in); err != nil {
+						return "load:" + err.Error()
+					}
+					var err error
+					switch mode {
+					case 0:
+						_, err = s.ForwardSteps(1)
+					case 1:
+						_, err = s.RecursiveSteps()
+					case 2:
+						_, err = s.Relax(2, 1e-300)
+					}
+					if err != nil {
+						return "err:" + err.Error()
+					}
+					return outputsBits(s)
+				}
+				if a, b := run(orig), run(back); a != b {
+					return []c15Fail{{"model/outputs-differ", fmt.Sprintf("solver with connections listed in source order %v, mode %d, input %v: the original gives %s, the restored one %s", perm, mode, in, a, b)}}
+				}
+			}
+		}
+	}
+	return nil
 }
 
 func c15Population(gs []*GenomeSpec) (fails []c15Fail) {
@@ -671,6 +751,10 @@ func runC15(c *Ctx) {
 			report(fl, "modular genome", 0, map[string]interface{}{"kind": "model", "genome": modularSeed(en)})
 		}
 	}
+	models += 6
+	for _, fl := range c15ModelOrders() {
+		report(fl, "three links into a linear output, listed in every order", 0, map[string]interface{}{"kind": "model-orders"})
+	}
 	c.AddEval(models)
 	c.Count("model_round_trips", models)
 	// experiments
@@ -710,7 +794,7 @@ func runC15(c *Ctx) {
 	c.Count("experiment_round_trips", exps)
 	c.Sample(map[string]interface{}{"genome": fam[len(fam)/3].Short(), "encodings": []string{"plain Write -> GenomeReader.Read", "plain Write -> ReadGenome", "YAML"}})
 	c.Sample(map[string]interface{}{"floats": c15Floats})
-	c.Rule = "genomes: start genomes, corner genomes, two unusual node layouts, each gene weight/mutation number and each trait parameter of four base genomes replaced in turn by every value of a 21-value hard-float alphabet (incl. 1e21/1e-5 where %g changes notation, MaxFloat64, 5e-324), every registered scalar activation type, three trait-reference patterns, all GenomeSpace states to depth 2 (3 thorough) of three families; each through plain Write->Read, plain Write->ReadGenome and YAML (the base genomes also through files read with NewGenomeReaderFromFile under five file names) (modular genomes: YAML only) and compared bit for bit (sign of zero excepted) incl. id and pointer wiring. organisms: MarshalBinary->UnmarshalBinary over fitness alphabet x generation {0,1,7}. populations: every multiset of <= 3 genomes from a family of 6 (1-3 traits) through Population.Write->ReadPopulation. fast-solver models: all 2^9 feed-forward edge sets over {bias,input,2 hidden,output} with hard-float weights + modular, WriteModel->ReadFMNSModel, outputs of 3 solver modes on 4 inputs bit-equal. experiments: every single-trial shape of <= 2 (3) generations over a 6-record menu plus two- and three-trial combinations, Write->Read, records, champions and 8 derived statistics equal. non-trivial = distinct genomes written"
+	c.Rule = "genomes: start genomes, corner genomes, two unusual node layouts, each gene weight/mutation number and each trait parameter of four base genomes replaced in turn by every value of a 21-value hard-float alphabet (incl. 1e21/1e-5 where %g changes notation, MaxFloat64, 5e-324), every registered scalar activation type, three trait-reference patterns, all GenomeSpace states to depth 2 (3 thorough) of three families; each through plain Write->Read, plain Write->ReadGenome and YAML (the base genomes also through files read with NewGenomeReaderFromFile under five file names) (modular genomes: YAML only) and compared bit for bit (sign of zero excepted) incl. id and pointer wiring. organisms: MarshalBinary->UnmarshalBinary over fitness alphabet x generation {0,1,7}. populations: every multiset of <= 3 genomes from a family of 6 (1-3 traits) through Population.Write->ReadPopulation. fast-solver models: all 2^9 feed-forward edge sets over {bias,input,2 hidden,output} with hard-float weights + modular, WriteModel->ReadFMNSModel, outputs of 3 solver modes on 4 inputs bit-equal; plus directly constructed solvers whose connection list is in every order (summation order decides the last bit). organisms are also marshalled a second time after their genotype changed in place / was replaced. experiments: every single-trial shape of <= 2 (3) generations over a 6-record menu plus two- and three-trial combinations, Write->Read, records, champions and 8 derived statistics equal. non-trivial = distinct genomes written"
 	c.Assume("a zero weight's sign is not compared; generation records always carry a champion (as FillPopulationStatistics produces); RandSeed, MaxFitnessScore and species back-pointers are not part of the statement")
 }
 
@@ -731,6 +815,8 @@ func replayC15(c *Ctx, rp *Replay) (bool, string) {
 		fails = c15Organism(&g, f, paramInt(rp, "generation"))
 	case "model":
 		fails = c15Model(&g, 1)
+	case "model-orders":
+		fails = c15ModelOrders()
 	default:
 		return false, "re-run the check: " + kind + " cases are deterministic from their parameters"
 	}
